@@ -55,6 +55,9 @@ def rq(rng, lo=1, hi=5, dens=(1, 2, 3)):
 FAMILIES = ["anharmonic", "rabi_matrix", "spin_boson", "holstein", "two_fermions", "ladder",
             "matrix_fd", "operator_mask", "boson_ladder", "ladder_matrix", "ladder_fermion", "spin_fermion",
             "two_bosons", "three_fermions"]
+# (a family with two blocks of IDENTICAL sectors was tried: on the Fock matrices the pairs (0,n)/(1,n) are
+# degenerate eliminated pairs -- never coupled, by a conserved quantity, but ill posed for the matrix
+# reference -- so Trace_SecondQuant skips it; the solver-level check of C16 covers equal sectors)
 
 
 def models(rng, sid=None):
@@ -123,6 +126,16 @@ def models(rng, sid=None):
         H1 = [[mul(scal(h), add(gen(0), gen(0, 1))), mul(scal(g), gen(0))], [mul(scal(g), gen(0, 1)), None]]
         return dict(kind=kind, modes=modes, r=2, block=[0, 0], H={0: H0, 1: H1}, rules=[dict(kind="tuple")],
                     scalar=False, fd="default", band=1)
+    if kind == "equal_sector_matrix":
+        # two blocks whose unperturbed sectors are the SAME operator expression; the coupling changes the
+        # boson number, so the coupled levels are still non-degenerate
+        modes = [("boson", "a")]
+        sect = add(mul(scal(w), num(0)), mul(scal(al), pw(num(0), 2)))
+        H0 = [[sect, None], [None, sect]]
+        up = add(mul(scal(g), gen(0)), mul(scal(h), num(0), gen(0, 1))) if rng.random() < 0.6 else mul(scal(g), gen(0))
+        H1 = [[None, up], [("dag", up), None]]
+        return dict(kind=kind, modes=modes, r=2, block=[0, 1], H={0: H0, 1: H1},
+                    rules=[dict(kind="none"), dict(kind="none")], scalar=False, fd="none", band=1)
     if kind == "boson_ladder":
         # a boson exchanging quanta with a charge (ladder) degree of freedom; H_0 depends on both numbers
         modes = [("boson", "a"), ("ladder", "l")]
